@@ -15,7 +15,7 @@ pub fn cu_stub<F: FnOnce() -> R + std::panic::UnwindSafe, R>(f: F) -> std::threa
     Ok(f())
 }
 
-/// bound on the vector length: 4 (quick); the thorough tier compiles with VERIF_CONVERT_N=6
+/// bound on the vector length: 4 (quick); the thorough tier compiles with VERIF_CONVERT_N=8
 pub const N: usize = match option_env!("VERIF_CONVERT_N") {
     Some(s) => (s.as_bytes()[0] - b'0') as usize,
     None => 4,
